@@ -88,6 +88,16 @@ CHECKS = {
         "note": "go/types and go/packages are the oracle. Interface types are excluded from the MethodsOf comparison; init/blank functions set aside.",
         "technique": _TLC,
     },
+    "C14": {
+        "level": "model_checking",
+        "text": "FuncResults.tla models the analysis as a depth-first search over (function, result index) pairs with visited marks; TLC proves termination for every call graph of the "
+                "model (self / mutual recursion, cross-index forwarding) and shows the unbounded descent when only the first index gets its mark. Every assignment of 13 source shapes to "
+                "three functions is a generated package (2197), and every function and method of the dependency closure of gengo's own module (about 11,000 units) is the real corpus; "
+                "ResultsOf runs in a supervised child (stack cap, time budget, restart behind a killing unit) and FuncResultsTrace.tla judges termination, declared n, one non-empty list per "
+                "result, assignability (go/types), repeatability and - for literal-only shapes - the exact alternatives in source order.",
+        "note": "types.AssignableTo is the oracle for 'possible result'; ResultsOf is called on the declaring package; exact alternatives only for the literal-only shapes.",
+        "technique": _TLC,
+    },
     "C15": {
         "level": "model_checking",
         "text": "TypeRef.tla defines reference trees, their printer, a character-level parser with a bracket depth counter, the path/name split point and the "
